@@ -428,6 +428,67 @@ def gen_enum(name, rng, ctx):
     return fam
 
 
+SHARED_TYPES = [
+    ("u32", lambda ci, k: f"{100 + 7 * ci + k}u32"),
+    ("String", lambda ci, k: '"d%d_%d".to_string()' % (ci, k)),
+    ("i16", lambda ci, k: f"{-(3 + 11 * ci + k)}i16"),
+    ("Option<u8>", lambda ci, k: "None" if (ci + k) % 3 == 0 else f"Some({10 + ci}u8)"),
+    ("u64", lambda ci, k: f"{1000 + ci}u64"),
+    ("bool", lambda ci, k: "true" if ci % 2 == 0 else "false"),
+]
+SHARED_NAMES = ["a", "b", "c", "d", "e", "f"]
+
+
+def gen_enum_shared(name, rng, ctx):
+    """enum whose constructors use the same field names (positional field<n> for tuple variants, a..f
+    for struct variants) with the same types but their own FieldAdded defaults"""
+    fam = Family(name, "enum")
+    fam.tags.update(["enum", "shared"])
+    pool = list(CTOR_NAMES)
+    rng.shuffle(pool)
+    ctors = []
+
+    def new_ctor():
+        ci = len(ctors)
+        shape = rng.choice(["tuple", "struct"])
+        rec = Record(positional=(shape == "tuple"))
+        nm0 = "field0" if shape == "tuple" else SHARED_NAMES[0]
+        rec.fields.append(Field(nm0, Ty(SHARED_TYPES[0][0], lambda r: "0u32")))
+        rec.used.add(nm0)
+        return dict(name=pool.pop(0), shape=shape, transient=False, rec=rec, removable=False, ci=ci)
+
+    def grow(c):
+        rec = c["rec"]
+        i = len(rec.fields)
+        if i >= len(SHARED_TYPES):
+            return None
+        nm = f"field{i}" if rec.positional else SHARED_NAMES[i]
+        rust, dflt = SHARED_TYPES[i]
+        d = dflt(c["ci"], len(rec.steps))
+        ty = Ty(rust, lambda r, d=d: d, optional=rust.startswith("Option"))
+        rec.fields.append(Field(nm, ty, chunk=len(rec.steps) + 1, default=d))
+        rec.used.add(nm)
+        rec.steps.append(("FieldAdded", nm))
+        return f"add {nm} (default {d})"
+
+    for _ in range(rng.randint(3, 4)):
+        ctors.append(new_ctor())
+    # prehistory: some constructors are already evolved at release 0
+    for c in ctors:
+        if rng.random() < 0.5:
+            fam.log.append(f"pre: {c['name']}: {grow(c)}")
+    for k in range(RELEASES):
+        if k > 0:
+            for c in rng.sample(ctors, 2):
+                fam.log.append(f"release {k}: {c['name']}: {grow(c)}")
+            if rng.random() < 0.3:
+                c = new_ctor()
+                ctors.append(c)
+                fam.log.append(f"release {k}: constructor {c['name']} added")
+        fam.versions.append([dict(name=c["name"], shape=c["shape"], transient=False, rec=c["rec"].clone()) for c in ctors])
+    return fam
+
+
 # ---- emission ------------------------------------------------------------------------------------
 
 def attr_steps(rec):
@@ -571,23 +632,46 @@ def main():
     fams = []
     ctx = dict(nestable=[], nested_used=set(), next_elem=[0])
     plan = (["general"] * 10 + ["enum"] * 5 + ["nested"] * 8 + ["containers"] * 8 + ["enum"] * 5 + ["nested"] * 4
-            + ["toplevel"] * 4)
+            + ["toplevel"] * 4 + ["shared"] * 3)
+    exclude = set()
+    for a in sys.argv[3:]:
+        if a.startswith("--exclude="):
+            exclude.update(x for x in a[len("--exclude="):].split(",") if x)
     counters = {}
     for flavour in plan:
         counters[flavour] = counters.get(flavour, 0) + 1
-        prefix = {"general": "Gs", "enum": "En", "nested": "Ns", "containers": "Cs", "toplevel": "Ts"}[flavour]
+        prefix = {"general": "Gs", "enum": "En", "nested": "Ns", "containers": "Cs", "toplevel": "Ts", "shared": "Sh"}[flavour]
         name = f"{prefix}{counters[flavour]}"
         sub = random.Random(rng.getrandbits(64))
         c = dict(ctx)
         if flavour in ("general", "containers", "toplevel"):
             c = dict(nestable=[], nested_used=ctx["nested_used"], next_elem=ctx["next_elem"])
-        if flavour == "enum":
+        if flavour == "shared":
+            fam = gen_enum_shared(name, sub, c)
+        elif flavour == "enum":
             fam = gen_enum(name, sub, c if counters[flavour] > 5 else dict(nestable=[], nested_used=ctx["nested_used"], next_elem=ctx["next_elem"]))
         else:
             fam = gen_struct(name, sub, c, flavour)
         fams.append(fam)
         if "toplevel_only" not in fam.tags:
             ctx["nestable"].append(fam)
+    if exclude:
+        # families dropped by the supervisor (their derive output did not compile against the tree
+        # under test), together with every family that embeds one of them
+        def uses(fam):
+            recs = []
+            for ver in fam.versions:
+                recs += [ver] if fam.kind == "struct" else [c["rec"] for c in ver]
+            return {f.ty.fam.name for r in recs for f in r.fields if isinstance(f.ty, NestedTy)}
+        changed = True
+        while changed:
+            changed = False
+            for fam in fams:
+                if fam.name not in exclude and uses(fam) & exclude:
+                    exclude.add(fam.name)
+                    changed = True
+        fams = [f for f in fams if f.name not in exclude]
+        print("excluded: " + ",".join(sorted(exclude)))
     out = ["// @generated by gen/families.py seed %d — do not edit" % seed,
            "#![allow(non_camel_case_types, unused_variables, clippy::all)]",
            "use crate::bridge::{Bridge, SliceOf, Streamed};", "use crate::catalog::{entry, Entry};",
